@@ -59,6 +59,36 @@ def make_model(rng, dt, acts):
     return m.to(dt)    # the scale buffers are created in float32: move them to the model dtype
 
 
+class InplaceBlock(torch.nn.Module):
+    """two linear layers with an in-place elementwise step on the (possibly quantized) activations in between, as
+    attention blocks do with their scores"""
+
+    def __init__(self, op):
+        super().__init__()
+        self.fc1 = torch.nn.Linear(6, 8)
+        self.fc2 = torch.nn.Linear(8, 4)
+        self.op = op
+
+    def forward(self, x):
+        h = self.fc1(x)
+        if self.op == "div_":
+            h /= 4.0
+        elif self.op == "mul_":
+            h *= 2.0
+        elif self.op == "add_":
+            h += 1.0
+        elif self.op == "neg_":
+            h = h.neg_()
+        elif self.op == "relu_":
+            h = torch.relu_(h)
+        elif self.op == "clamp_":
+            h = h.clamp_(-1.0, 1.0)
+        return self.fc2(h)
+
+
+INPLACE_OPS = ["div_", "mul_", "add_", "neg_", "relu_", "clamp_"]
+
+
 def drop_leaked(base_ids):
     """remove global hooks that outlived their context, so that what follows is judged on its own"""
     import torch.nn.modules.module as M
@@ -146,7 +176,11 @@ def side_effect_cases(ctx, rng):
         dt = rng.choice([torch.float32, torch.float16, torch.bfloat16])
         acts = rng.choice([None, "qint8", "qfloat8_e4m3fn", "qfloat8_e5m2"])
         torch.manual_seed(rng.getrandbits(30))
-        fm = torch.nn.Sequential(torch.nn.Linear(6, 8), torch.nn.ReLU(), torch.nn.Conv2d(1, 2, 1) if False else torch.nn.LayerNorm(8), torch.nn.Linear(8, 4)).to(dt)
+        inplace = INPLACE_OPS[i % len(INPLACE_OPS)] if i % 2 else None
+        if inplace is None:
+            fm = torch.nn.Sequential(torch.nn.Linear(6, 8), torch.nn.ReLU(), torch.nn.LayerNorm(8), torch.nn.Linear(8, 4)).to(dt)
+        else:
+            fm = InplaceBlock(inplace).to(dt)
         float_src = {k: (v, tensor_hash(v)) for k, v in fm.named_parameters()}
         wq = rng.choice(["qint8", "qint4", "qfloat8", "qint2", "qfloat8_e5m2"])
         quantize(fm, weights=q.qtypes[wq], activations=None if acts is None else q.qtypes[acts])
@@ -195,13 +229,13 @@ def side_effect_cases(ctx, rng):
                                 pass
             after = snapshot(fm)
         ctx.evaluations += 1
-        ctx.count(f"inference:{state}:acts={acts}")
-        ctx.nontriv(("inference", state, acts, wq, str(dt)))
+        ctx.count(f"inference:{state}:acts={acts}:inplace={inplace}")
+        ctx.nontriv(("inference", state, acts, wq, str(dt), inplace))
         if before != after:
             diff = [k for k in before if before[k] != after.get(k)]
-            ctx.spec_failures.append(("C13:inference-modified-state", {"state": state, "acts": acts, "weights": wq, "changed": diff[:6]}))
+            ctx.spec_failures.append(("C13:inference-modified-state", {"state": state, "acts": acts, "weights": wq, "changed": diff[:6], "inplace_step": inplace}))
         if outs[0] != outs[1] or outs[1] != outs[2]:
-            ctx.spec_failures.append(("C13:repeated-evaluation-differs", {"state": state, "acts": acts, "weights": wq}))
+            ctx.spec_failures.append(("C13:repeated-evaluation-differs", {"state": state, "acts": acts, "weights": wq, "inplace_step": inplace}))
         # library entry points do not modify what they read
         w = torch.randn(4, 8).to(dt)
         hw = tensor_hash(w)
